@@ -113,6 +113,11 @@ def run(tier):
     keep = [j for j in order if fam_of[j] < len(FIXED) + len(HYDRIDE)]
     plan["runs"].append({"name": "spellings_keep_maps", "inputs": [inputs[j] for j in keep], "n_jobs": 16, "threshold": 0,
                          "remove_aam": False})
+    # ... and cut into small batches, with verbatim repeats of rows in later batches
+    rep_ = [j for j in order if fam_of[j] < len(FIXED) + len(HYDRIDE) + 20]
+    batched = rep_ + rep_[::3] + rep_[1::5]
+    plan["runs"].append({"name": "spellings_batched", "inputs": [inputs[j] for j in batched], "n_jobs": 1, "threshold": 0,
+                         "batch_size": 6})
     pf = os.path.join(wd, "plan.json")
     with open(pf, "w") as f:
         json.dump(plan, f)
@@ -121,6 +126,9 @@ def run(tier):
     allrows = [e for e in common.read_ndjson(lg) if e["ev"] == "row"]
     rows = [e for e in allrows if e["run"] == 1]
     rows2 = [e for e in allrows if e["run"] == 2]
+    rows3 = [e for e in allrows if e["run"] == 3]
+    if len(rows3) != len(batched):
+        raise common.MachineryError("batched run returned %d rows for %d valid inputs" % (len(rows3), len(batched)))
     if len(rows) != len(inputs) or len(rows2) != len(keep):
         raise common.MachineryError("pipeline returned %d + %d rows for %d + %d valid inputs" % (len(rows), len(rows2),
                                                                                               len(inputs), len(keep)))
@@ -136,6 +144,8 @@ def run(tier):
     nf = max(fam_of) + 1
     for j, e in zip(keep, rows2):
         fams.setdefault(nf + fam_of[j], []).append(e)
+    for j, e in zip(batched, rows3):
+        fams.setdefault(2 * nf + fam_of[j], []).append(e)
     events = []
     for k in sorted(fams):
         mem = []
